@@ -72,3 +72,8 @@ func SetDecoderInject(f func(i, op1, op2 int)) { jitdec.VerifInject = f }
 func SetEncoderInject(f func(i, op1, op2 int)) { x86.VerifInject = f }
 func DecoderOpName(op int) string               { return jitdec.VerifOpName(op) }
 func EncoderOpName(op int) string               { return x86.VerifOpName(op) }
+
+// PrefilledCache: see caching.VerifPrefilled.
+func PrefilledCache(slots int, keys []*GoType, vals []interface{}) *ProgramCache {
+	return caching.VerifPrefilled(slots, keys, vals)
+}
